@@ -41,6 +41,7 @@ TSPEC = [P('Work', params=[par('p'), par('d', default='dflt'), par('n', nic='n_c
 
 def bounds(tier):
     return {'tree': 'main -> (A as a -> (C as c), B as b), depth 3', 'contexts': '<= 3 merged, dict / file / list / uses',
+            'entry_kinds_varied': 'all in the first context, two in later ones' if tier == 'quick' else 'all in the first two contexts, two in the third',
             'parameters': ['plain', 'default', 'name_in_config', 'dtype'], 'values': 'symbolic ints / strings'}
 
 
@@ -51,8 +52,12 @@ def cases(tier):
     return out
 
 
+TIER = ['quick']
+
+
 def make_harness(case, tier):
     kind, arg = case
+    TIER[0] = tier or 'quick'
     keylib.setup(full=True, hash_mode='auto')
     return {'precedence': precedence, 'samefile': samefile, 'missing': missing, 'parts': parts, 'sharing': sharing, 'conflict': conflict,
             'reuse': reuse}[kind](arg)
@@ -93,11 +98,11 @@ def precedence(form):
                 # (the first context varies every kind of entry, later ones the two that interact with it)
                 if ctx.flag(f'ctx{i}_global_p'):
                     c['p'] = V(f'ctx{i}_p')
-                if i == 0 and ctx.flag(f'ctx{i}_global_d'):
+                if (i == 0 or (TIER[0] == 'thorough' and i == 1)) and ctx.flag(f'ctx{i}_global_d'):
                     c['d'] = V(f'ctx{i}_d')
                 fn = {}
                 for k, ns in namespaces.items():
-                    if (i == 0 or k == 'C') and ctx.flag(f'ctx{i}_ns_{k}'):
+                    if (i == 0 or k == 'C' or (TIER[0] == 'thorough' and i == 1)) and ctx.flag(f'ctx{i}_ns_{k}'):
                         fn[ns] = {'p': V(f'ctx{i}_{k}_p')}
                 if fn or (i == 0 and ctx.flag(f'ctx{i}_emptyfn')):
                     c['for_namespaces'] = fn
